@@ -45,6 +45,9 @@ def jobs(tier):
         step = 4 if q else 2
         for lo in range(0, len(ORDERS), step):
             hi = min(len(ORDERS), lo + step)
+            # fill_in_map is only applicable after let substitution: skip chunks without any applicable order
+            if not any(all(("L" in o[:n]) for n, p_ in enumerate(o) if p_ == "A") for o in ORDERS[lo:hi]):
+                continue
             out.extend(tjobs(f"{H}:c10_order", t, tier, shrink=shrink, fixed=dict({"mask": 1, "o1": 0}, **({"o0": 1} if q else {})),
                              extra_params=[("order", "int"), ("twice", "int")] + ([] if q else [("o0", "int")]),
                              extra_pre=[f"{lo} <= order < {hi}", "0 <= twice < 2" if q else "0 <= twice < 4"] + ([] if q else ["0 <= o0 <= 2"]),
@@ -52,13 +55,15 @@ def jobs(tier):
                              note=f"{t}: pass sequences ORDERS[{lo}:{hi}], one position applied twice (idempotence), override of the first constant; "
                                   "oracle: meaning == reference (subcircuits expanded iff expand_subcircuits applied), result generates and re-parses to the same meaning"))
         for flags in range(8):
+            if flags >= 4 and t in ("t_alias_macro", "t_macro_reg"):
+                continue        # fill_in_map declines macros that index an alias by a parameter: nothing to compare
             out.extend(tjobs(f"{H}:c10_flags", t, tier, shrink=shrink, fixed={"flags": flags, "mask": 1, "o1": 0},
                              extra_params=[("o0", "int")], extra_pre=["0 <= o0 <= 1" if q else "0 <= o0 <= 2"], functions=FUNCS, timeout=300,
                              note=f"{t}: parse_jaqal_string with flags expand_macro={bool(flags & 1)}, expand_let={bool(flags & 2)}, expand_let_map={bool(flags & 4)} "
                                   "equals the explicit passes applied to the plain parse (same acceptance, equal circuits)"))
     # templates without macros so that expand_let_map is really exercised
     for t in ["t_slice_let", "t_regsize_let"]:
-        shrink = _window(t, tier, SYM[t], 1 if q else 2)
+        shrink = {"t_slice_let": {"size": (3, 3), "a": (0, 1), "b": (2, 3), "i": (0, 1)}, "t_regsize_let": {"n": (2, 3), "i": (0, 2), "b": (1, 2)}}[t]
         for flags in (2, 4, 6, 7):
             out.extend(tjobs(f"{H}:c10_flags", t, tier, shrink=shrink, fixed={"flags": flags, "mask": 1, "o1": 0},
                              extra_params=[("o0", "int")], extra_pre=["0 <= o0 <= 2"], functions=FUNCS, timeout=300, name=f"c10_flags_nomacro_{t}_{flags}", base="c10_flags",
